@@ -4,7 +4,7 @@
 
 namespace sim {
 
-#define C(api, expr, ...) do { int64_t _i0 = g_mon.illegal_count; g_cur_api_id = api_id(#api); int _r = (int)L(expr); \
+#define C(api, expr, ...) do { int64_t _i0 = g_mon.illegal_here(); g_cur_api_id = api_id(#api); int _r = (int)L(expr); \
     if (!e.call(#api, _r, _i0, {__VA_ARGS__})) return; } while (0)
 #define O(p, n) std::make_pair((const void *)(p), (size_t)(n))
 #define CTX e.ctx
@@ -341,7 +341,7 @@ static void p_rangeproof_verify(ProbeEnv &e) {
     C(secp256k1_rangeproof_verify, secp256k1_rangeproof_verify(CTX, &mn, &mx, &F.commit[2], F.rp_proof, F.rp_len, F.rp_extra, sizeof F.rp_extra, &F.gen));
     C(secp256k1_rangeproof_info, secp256k1_rangeproof_info(CTX, &ex, &mant, &mn, &mx, F.rp_proof, F.rp_len), O(&ex, sizeof ex), O(&mant, sizeof mant), O(&mn, 8), O(&mx, 8));
     g_cur_api_id = api_id("secp256k1_rangeproof_max_size");
-    { int64_t i0 = g_mon.illegal_count; size_t ms = L(secp256k1_rangeproof_max_size(CTX, 0xffffffffULL, 0)); if (!e.call("secp256k1_rangeproof_max_size", 1, i0, {O(&ms, sizeof ms)})) return; }
+    { int64_t i0 = g_mon.illegal_here(); size_t ms = L(secp256k1_rangeproof_max_size(CTX, 0xffffffffULL, 0)); if (!e.call("secp256k1_rangeproof_max_size", 1, i0, {O(&ms, sizeof ms)})) return; }
 }
 static void p_rangeproof_rewind(ProbeEnv &e) {
     unsigned char bo[32], mo[4096]; uint64_t vo = 0, mn = 0, mx = 0; size_t ol = sizeof mo;
@@ -400,14 +400,14 @@ static void p_aggverify(ProbeEnv &e) {
 static void p_bppp(ProbeEnv &e) {
     unsigned char ser[33 * 4]; size_t sl = sizeof ser;
     g_cur_api_id = api_id("secp256k1_bppp_generators_create");
-    int64_t i0 = g_mon.illegal_count;
+    int64_t i0 = g_mon.illegal_here();
     secp256k1_bppp_generators *gs = L(secp256k1_bppp_generators_create(CTX, 4));
     if (!e.call("secp256k1_bppp_generators_create", gs != NULL, i0, {})) return;
     if (gs) {
         C(secp256k1_bppp_generators_serialize, secp256k1_bppp_generators_serialize(CTX, gs, ser, &sl), O(&sl, sizeof sl), O(ser, sizeof ser));
         L(secp256k1_bppp_generators_destroy(CTX, gs));
     }
-    i0 = g_mon.illegal_count;
+    i0 = g_mon.illegal_here();
     g_cur_api_id = api_id("secp256k1_bppp_generators_parse");
     gs = L(secp256k1_bppp_generators_parse(CTX, F.bp_gens, sizeof F.bp_gens));
     if (!e.call("secp256k1_bppp_generators_parse", gs != NULL, i0, {})) return;
@@ -421,7 +421,7 @@ static void p_bppp(ProbeEnv &e) {
 // a task-private context life cycle (ignores the shared context): legal to run concurrently with anything
 static void p_ctx_private(ProbeEnv &e) {
     g_cur_api_id = api_id("secp256k1_context_create");
-    int64_t i0 = g_mon.illegal_count;
+    int64_t i0 = g_mon.illegal_here();
     secp256k1_context *c = L(secp256k1_context_create(SECP256K1_CONTEXT_NONE));
     if (!e.call("secp256k1_context_create", c != NULL, i0, {})) return;
     if (!c) return;
@@ -431,7 +431,7 @@ static void p_ctx_private(ProbeEnv &e) {
     alignas(16) unsigned char mem[2048];
     size_t need = L(secp256k1_context_preallocated_clone_size(c));
     if (need <= sizeof mem) {
-        i0 = g_mon.illegal_count;
+        i0 = g_mon.illegal_here();
         secp256k1_context *c2 = L(secp256k1_context_preallocated_clone(c, mem));
         if (e.call("secp256k1_context_preallocated_clone", c2 != NULL, i0, {}) && c2) {
             C(secp256k1_context_randomize, secp256k1_context_randomize(c2, NULL));
@@ -440,6 +440,26 @@ static void p_ctx_private(ProbeEnv &e) {
         }
     }
     L(secp256k1_context_destroy(c));
+}
+
+// deliberate caller misuse through the const API (invalid objects): the illegal callback must be the only effect
+#define CM(api, expr) do { int64_t _i0 = g_mon.illegal_here(); g_cur_api_id = api_id(#api); (void)L(expr); e.call_misuse(#api, _i0); } while (0)
+static void p_misuse(ProbeEnv &e) {
+    secp256k1_pubkey bad; memset(&bad, 0, sizeof bad);
+    secp256k1_xonly_pubkey xbad; memset(&xbad, 0, sizeof xbad);
+    secp256k1_musig_pubnonce pnbad; memset(&pnbad, 0, sizeof pnbad);
+    const secp256k1_pubkey *srt[4] = {&F.pk[2], &bad, &F.pk[0], &F.pk[1]};
+    unsigned char o[66]; size_t l = 33;
+    CM(secp256k1_ec_pubkey_sort, secp256k1_ec_pubkey_sort(CTX, srt, 4));
+    CM(secp256k1_ec_pubkey_cmp, secp256k1_ec_pubkey_cmp(CTX, &F.pk[0], &bad));
+    CM(secp256k1_ec_pubkey_serialize, secp256k1_ec_pubkey_serialize(CTX, o, &l, &bad, SECP256K1_EC_COMPRESSED));
+    CM(secp256k1_ecdsa_verify, secp256k1_ecdsa_verify(CTX, &F.esig, F.msg, &bad));
+    CM(secp256k1_schnorrsig_verify, secp256k1_schnorrsig_verify(CTX, F.ssig, F.msg, 32, &xbad));
+    CM(secp256k1_musig_pubnonce_serialize, secp256k1_musig_pubnonce_serialize(CTX, o, &pnbad));
+    // and a correct call afterwards: unaffected
+    secp256k1_ecdsa_signature s;
+    C(secp256k1_ecdsa_signature_parse_compact, secp256k1_ecdsa_signature_parse_compact(CTX, &s, F.esig64));
+    C(secp256k1_ecdsa_verify, secp256k1_ecdsa_verify(CTX, &s, F.msg, &F.pk[0]));
 }
 
 const std::vector<Probe> &probe_table() {
@@ -454,7 +474,7 @@ const std::vector<Probe> &probe_table() {
         {"anti_exfil", p_anti_exfil}, {"anti_exfil_verify", p_anti_exfil_verify}, {"generator", p_generator}, {"generator_blinded", p_generator_blinded},
         {"pedersen_commit", p_pedersen_commit}, {"pedersen_rest", p_pedersen_rest}, {"rangeproof_sign", p_rangeproof_sign}, {"rangeproof_verify", p_rangeproof_verify},
         {"rangeproof_rewind", p_rangeproof_rewind}, {"surjection_make", p_surjection_make}, {"surjection_verify", p_surjection_verify}, {"surjection_info", p_surjection_info},
-        {"whitelist_sign", p_whitelist_sign}, {"whitelist_verify", p_whitelist_verify}, {"halfagg", p_halfagg}, {"aggverify", p_aggverify}, {"bppp", p_bppp}, {"ctx_private", p_ctx_private}, {"pubkey_edge", p_pubkey_edge},
+        {"whitelist_sign", p_whitelist_sign}, {"whitelist_verify", p_whitelist_verify}, {"halfagg", p_halfagg}, {"aggverify", p_aggverify}, {"bppp", p_bppp}, {"ctx_private", p_ctx_private}, {"misuse", p_misuse}, {"pubkey_edge", p_pubkey_edge},
     };
     return t;
 }
